@@ -43,7 +43,14 @@ for p in sorted(glob.glob(os.path.join(ROOT, "seeded", "*", "meta.json"))):
         res = "MISSED"
     extra = m.get("caught_note", "")
     out_seed.append("| %s | %s | %s | %s | %s%s |" % (name, m.get("property"), esc(m.get("summary", ""))[:260], esc(m.get("needs", ""))[:260], res, (" — " + esc(extra)) if extra else ""))
-blocks = {"fixes": out_fix, "open": out_open, "evidence": out_ev, "seeded": out_seed}
+# ---- as-built parts
+out_ab = []
+for i in range(1, 21):
+    pid = "C%02d" % i
+    fp = os.path.join(ROOT, "design_parts", pid + ".md")
+    body = open(fp).read().strip() if os.path.exists(fp) else "(no as-built part written)"
+    out_ab.append("#### %s\n\n%s\n" % (pid, body))
+blocks = {"asbuilt": out_ab, "fixes": out_fix, "open": out_open, "evidence": out_ev, "seeded": out_seed}
 p = os.path.join(ROOT, "DESIGN.md")
 s = open(p).read()
 for k, lines in blocks.items():
